@@ -72,7 +72,7 @@ theorem no_panic_no_report (env : Env) (n : Nat) (p0 p : PP) (arg : Val) (verb :
 /-- A panic raised while a panic payload is being printed propagates (as in fmt). -/
 theorem nested_panic_propagates (env : Env) (n : Nat) (p0 p : PP) (arg : Val) (verb : Nat) (method : List Byte)
     (payload : Val) (hp : p.panicking = true) :
-    catchPanic env (n + 1) p0 arg verb method false (.raised p payload) = .panic := by
+    catchPanic env (n + 1) p0 arg verb method false (.raised p payload) = .panic p.buf payload := by
   simp [catchPanic, hp]
 
 /-- The user-method outcome contained, with the frame: after the report the
@@ -81,7 +81,25 @@ theorem panic_contained (env : Env) (he : EnvOk env) (n : Nat) (p0 p : PP) (hp :
     (method : List Byte) (nr : Bool) (payload : Val) (hpl : ValOk payload) (q : PP)
     (h : catchPanic env n p0 arg verb method nr (.raised p payload) = .ok q) :
     Inv q.buf ∧ q.buf.mode = p.buf.mode ∧ q.override = p.override :=
-  (spec_all env he n).catchPanic p0 p arg verb method nr (.raised p payload) hp
-    (show G p p ∧ ValOk payload from ⟨G.refl hp, hpl⟩) q h
+  ((spec_all env he n).catchPanic p0 p arg verb method nr (.raised p payload) hp
+    (show G p p ∧ ValOk payload from ⟨G.refl hp, hpl⟩)).1 q h
+
+
+/-- **A panic that leaves a nested printer** (raised while the nested printer was printing a
+panic value, hence re-raised there) does not escape the enclosing method: the shared buffer is
+handed back, its mode restored, and the panic continues as a panic of the method that called
+`Print` — which the enclosing `catchPanic` reports like any other (D11). -/
+theorem nested_panic_handed_back (env : Env) (n : Nat) (p : PP) (args : Vals) (k : Script) (b : Buffer) (pl : Val)
+    (h : doPrint env n { buf := p.buf, override := p.override } args.toList = .panic b pl) :
+    runScript env (n + 1) p (.print args k) = .raised { p with buf := b.setMode p.buf.mode } pl := by
+  simp [runScript, h]
+
+/-- …and the buffer handed back satisfies the invariant, in the caller's mode: the report that
+follows is written into a well-formed prefix. -/
+theorem nested_panic_buffer_ok (env : Env) (he : EnvOk env) (n : Nat) (p : PP) (hp : Pre p) (args : Vals) (ha : ValsOk args)
+    (b : Buffer) (pl : Val) (h : doPrint env n { buf := p.buf, override := p.override } args.toList = .panic b pl) :
+    Inv (b.setMode p.buf.mode) ∧ (b.setMode p.buf.mode).mode = p.buf.mode ∧ ValOk pl := by
+  have hd := ((spec_all env he n).doPrint { buf := p.buf, override := p.override } args.toList hp (listOk_of_valsOk _ ha)).2 b pl h
+  exact ⟨inv_setMode _ _ hd.1, setMode_mode _ _, hd.2⟩
 
 end Redact
